@@ -36,6 +36,7 @@ const (
 	ProposalCommittedWindow
 	ReadIndexWindow
 	NativeSMClose
+	NodeTick
 	NumPoints
 )
 
